@@ -377,6 +377,7 @@ func (s *State) evalPipe(left object.Object, right ast.Node) object.Object {
 }
 
 func (s *State) evalIndexExpression(left object.Object, node *ast.IndexExpression) object.Object {
+	left = object.Value(left) // an integer parameter / loop variable held in a register is an INTEGER.
 	if left.Type() == object.ERROR {
 		return left
 	}
@@ -506,6 +507,9 @@ func (s *State) evalDelete(node ast.Node) object.Object {
 }
 
 func (s *State) deleteMapEntry(idxE *ast.IndexExpression, index object.Object) object.Object {
+	if reg, ok := idxE.Left.(*object.Register); ok { // integer parameter or loop variable: same error as without registers.
+		return s.NewError("delete index on non map: " + reg.Literal() + " " + object.INTEGER.String())
+	}
 	if idxE.Left.Value().Type() != token.IDENT {
 		return s.NewError("delete index on non identifier: " + idxE.Left.Value().DebugString())
 	}
